@@ -179,11 +179,13 @@ func getMinIntType(
 	)
 
 	if nExclusiveMin && nMin != nil {
-		*nMin += 1.0
+		v := *nMin + 1.0
+		nMin = &v
 	}
 
 	if nExclusiveMax && nMax != nil {
-		*nMax -= 1.0
+		v := *nMax - 1.0
+		nMax = &v
 	}
 
 	if nMin != nil && *nMin >= 0 {
